@@ -563,7 +563,9 @@ def note_array_to_score(
         else:
             beat_type = 4
         difference_from_zero = (0 - last_neg_beat) * divs * (4 / beat_type)
-        anacrusis_divs = int(last_neg_divs + difference_from_zero)
+        # beat onsets are floating point numbers (float32 in note arrays):
+        # 6.9999998 divisions means 7
+        anacrusis_divs = int(round(float(last_neg_divs + difference_from_zero)))
 
     # Create the part
     part = create_part(
